@@ -5,8 +5,15 @@
 //! trusted: R8 wrappers: `&mut v[a..b]` -> vec_range_mut (slice of a Vec, frame stated), `x.to_be_bytes()` -> u16_to_be_bytes, `u16::from_be_bytes` -> u16_from_be_bytes, `&mut msg[..]` -> msg (full-range reborrow); R11: panic!(..) -> unreachable!() (obligation: unreachable)
 //! plemma: C15 lemma_transport_sync: receiver state == sender state implies the receiver recovers exactly the length and the body from the sender's bytes and both states are equal again (induction step for any number of messages and key rotations)
 //! assume: the handshake has finished (noise_state is Finished) and nonces are <= 1001 (invariant of the functions themselves: they rotate at 1000); message length <= 65535
+//! trusted: assume_specification for core::cmp::max / core::cmp::min (std definitions): present in every unit so that a change that introduces them is verified instead of being rejected by the tool
 use vstd::prelude::*;
 verus! {
+use vstd::std_specs::cmp::*;
+use core::cmp;
+pub assume_specification<T: core::cmp::Ord>[core::cmp::max::<T>](a: T, b: T) -> (r: T)
+    ensures T::obeys_cmp_spec() ==> r == (if b.cmp_spec(&a) == core::cmp::Ordering::Less { a } else { b });
+pub assume_specification<T: core::cmp::Ord>[core::cmp::min::<T>](a: T, b: T) -> (r: T)
+    ensures T::obeys_cmp_spec() ==> r == (if b.cmp_spec(&a) == core::cmp::Ordering::Less { b } else { a });
 pub struct PublicKey {} pub struct NoiseStep {} pub struct DirectionalNoiseState {} pub struct BidirectionalNoiseState {}
 pub enum ErrorAction { DisconnectPeer { msg: Option<u8> } }
 pub struct LightningError { pub err: String, pub action: ErrorAction }
